@@ -21,7 +21,9 @@ RULE = (
     "(i) histories: on one shared evaluable, interleavings of up to 40 evaluations drawn from C01's rule space, C05's layer "
     "rules and C07's diagram rules (rule objects re-applied, and applied to a second architecture in between); modules + "
     "import and hierarchy edges snapshotted before and after; every (verdict, message) compared with the value obtained on "
-    "a fresh evaluable, and rule verdicts with PtaModel; (ii) permutations of subjects, objects, object layers, layer "
+    "a fresh evaluable, and rule verdicts with PtaModel; 2-5 LayerRule objects built on ONE shared LayeredArchitecture object "
+    "(object layers as string, list or chained are_named calls), defined and evaluated in seeded interleavings, each outcome "
+    "compared with the same rule alone on a freshly built architecture, the layer definitions listed before and after; (ii) permutations of subjects, objects, object layers, layer "
     "definition order, exclusion patterns; (iii) 8 fresh interpreters with PYTHONHASHSEED=0..7 run the same seeded workload "
     "(rules, layer rules, diagram rules, scans) and their outputs (verdicts and raw messages, sorted module/import sets) "
     "are compared byte-wise; (iv) Path.iterdir wrapped to return entries in seeded shuffled orders: module and import "
@@ -271,6 +273,140 @@ def permutation_worker(seed):
     return fail, problems
 
 
+def _layers_listing(arch_obj, names):
+    """the layer definitions as the LayeredArchitecture object lists them now"""
+    return [(n, [(f.identifier, bool(f.identifier_is_regex)) for f in arch_obj[n]]) for n in names], str(arch_obj)
+
+
+def _shared_rule_lops(spec):
+    verb, imp, exc, anything, subj, objs, form = spec
+    lops = layer_rule_ops(verb, imp, exc, subj, objs, anything, obj_as_list=(form != "string"))
+    if not anything and form == "chained":
+        lops = lops[:-1] + [("named", o) for o in objs]
+    return lops
+
+
+def _build_layer_rule(lops, arch_obj):
+    """-> (rule, None) or (None, 'ERR:kind@i')"""
+    from ..impl import LayerRule, err_kind
+    from ..layers_common import LOPS
+
+    r = LayerRule()
+    for i, (op, arg) in enumerate(lops):
+        try:
+            r = r.based_on(arch_obj) if op == "based" else LOPS[op](r, arg)
+        except Exception as e:  # noqa: BLE001
+            return None, f"ERR:{err_kind(e)}@{i}"
+    return r, None
+
+
+def _apply_layer_rule(rule, ev):
+    from ..impl import err_kind
+
+    try:
+        rule.assert_applies(ev)
+        return "PASS"
+    except AssertionError as e:
+        return "FAIL:" + str(e)
+    except Exception as e:  # noqa: BLE001
+        return "ERR:" + err_kind(e)
+
+
+def shared_layers_worker(seed):
+    """several LayerRule objects built on ONE LayeredArchitecture object (object layers given as a string, as a list or by chained
+    are_named calls), defined and evaluated in a seeded interleaving on one shared evaluable; every outcome is compared with
+    the same rule built alone on a freshly built LayeredArchitecture and applied to a fresh evaluable.
+    Returns (n_evaluations, n_failing, has_chained, problems)"""
+    from ..impl import graph_snapshot, make_graph
+    from . import c05
+
+    rng = random.Random(seed)
+    comps = rng.choice([gen.PLAIN, gen.IDENT_ADVERSARIAL])
+    pool = []
+    while len(pool) < 3:
+        nodes = gen.random_tree(rng, max_nodes=12, comps=comps)
+        cand = nodes[:]
+        rng.shuffle(cand)
+        pool = []
+        for c in cand:
+            if all(not gen.related(c, d) for d in pool):
+                pool.append(c)
+    imps = gen.random_imports(rng, nodes, 10)
+    k = rng.randint(3, min(4, len(pool)))
+    arch = []
+    for i in range(k):
+        n = rng.randint(1, max(1, min(2, len(pool) - (k - i - 1))))
+        mods = [pool.pop() for _ in range(n)]
+        arch.append((f"L{i}", "N", mods) if rng.random() < 0.7 else (f"L{i}", "R", c05.rx_for(mods)))
+    names = [a[0] for a in arch]
+    specs = []
+    for _ in range(rng.randint(2, 5)):
+        verb, imp, exc, anything = rng.choice(gen.SHAPES)
+        subj = rng.choice(names)
+        others = [n for n in names if n != subj]
+        objs = rng.sample(others, rng.randint(1, len(others)))
+        if len(objs) == 1:
+            form = rng.choice(["string", "list"])
+        else:
+            form = rng.choice(["list", "chained", "chained"])
+        specs.append((verb, imp, exc, anything, subj, objs, form))
+    problems, form_problems = [], []
+    evals = fails = 0
+    # each rule alone: a LayeredArchitecture of its own, an evaluable of its own
+    alone = []
+    for spec in specs:
+        r, err = _build_layer_rule(_shared_rule_lops(spec), make_arch(arch))
+        out = err or _apply_layer_rule(r, make_graph(nodes, imps))
+        evals += 1
+        alone.append(out)
+        if spec[6] == "chained" and not spec[3]:
+            r2, err2 = _build_layer_rule(_shared_rule_lops(spec[:6] + ("list",)), make_arch(arch))
+            out2 = err2 or _apply_layer_rule(r2, make_graph(nodes, imps))
+            evals += 1
+            if out2 != out:
+                form_problems.append({"what": "layer rule outcome depends on whether its object layers are listed in one are_named([...]) call or in chained are_named calls",
+                                 "rule": _shared_rule_lops(spec), "chained": out, "list": out2})
+    # the history: one LayeredArchitecture object, one evaluable
+    shared_arch = make_arch(arch)
+    shared_ev = make_graph(nodes, imps)
+    listing0 = _layers_listing(shared_arch, names)
+    graph0 = graph_snapshot(shared_ev)
+    tokens = [i for i in range(len(specs)) for _ in range(rng.randint(2, 3))]
+    mode = rng.random()
+    if mode < 0.25:
+        tokens.sort()                                                    # define, evaluate (twice), next rule
+    elif mode < 0.5:
+        tokens = list(range(len(specs))) + rng.sample(tokens, len(tokens))     # all defined up front, then evaluations in any order
+    else:
+        rng.shuffle(tokens)
+    rules = {}
+    schedule = []
+    for i in tokens:
+        if i not in rules:
+            rules[i] = _build_layer_rule(_shared_rule_lops(specs[i]), shared_arch)
+            schedule.append(("define", i))
+            continue
+        r, err = rules[i]
+        out = err or _apply_layer_rule(r, shared_ev)
+        schedule.append(("evaluate", i))
+        evals += 1
+        if out.startswith("FAIL"):
+            fails += 1
+        if out != alone[i] and len(problems) < 3:
+            problems.append({"what": "outcome of a layer rule depends on which other rules were defined / evaluated before it on the same LayeredArchitecture object",
+                             "rule": _shared_rule_lops(specs[i]), "alone_on_a_fresh_architecture": alone[i], "in_the_history": out,
+                             "history_so_far": list(schedule), "rule_index": i})
+    problems += form_problems[:1]
+    if _layers_listing(shared_arch, names) != listing0:
+        problems.append({"what": "defining / evaluating layer rules changed the layer definitions of the LayeredArchitecture they are based on",
+                         "before": listing0, "after": _layers_listing(shared_arch, names)})
+    if graph_snapshot(shared_ev) != graph0:
+        problems.append({"what": "evaluating layer rules changed the evaluable architecture"})
+    for p in problems:
+        p.update({"nodes": nodes, "imports": imps, "layers": arch, "rules": [_shared_rule_lops(s_) for s_ in specs], "schedule": schedule})
+    return evals, fails, any(s_[6] == "chained" and not s_[3] for s_ in specs), problems
+
+
 class _ShuffledScandir:
     def __init__(self, it, r):
         with it:
@@ -512,6 +648,23 @@ def run(ctx: Ctx):
             s.nontrivial.add(j)
         for p in problems[:1]:
             p.update({"kind": "property-violation", "seed": base + 7919 * j})
+            ctx.violations.append(p)
+    s.finish()
+
+    s = Stream(ctx, "(i''') several LayerRule objects on ONE shared LayeredArchitecture object (object layers as string / list / chained are_named "
+                    "calls), defined and evaluated in seeded interleavings, vs each rule alone on a freshly built architecture")
+    res = pmap(shared_layers_worker, [base + 15485863 * i + 11 for i in range(ctx.size(500, 10000))], ctx.jobs, chunk=25)
+    for j, (n_ev, fails, chained, problems) in enumerate(res):
+        s.evaluations += n_ev
+        s.count("histories")
+        if chained:
+            s.count("histories-with-a-chained-rule")
+        if fails >= 1 and chained:
+            s.nontrivial.add(j)
+        for p in problems[:1]:
+            sd = base + 15485863 * j + 11
+            p.update({"kind": "property-violation", "seed": sd,
+                      "python": f"from harness.props.c15 import shared_layers_worker; print(shared_layers_worker({sd})[3])"})
             ctx.violations.append(p)
     s.finish()
 
